@@ -177,6 +177,27 @@ func oneC05(t *testing.T, x Exp, pid string, order string) (msg string) {
 				fail("a login was forwarded after the call had returned")
 			default:
 			}
+		case "cancelled-before":
+			// the context is already cancelled when the line is processed (e.g. the second of two
+			// buffered lines): the event must still be written; only the hand-off may be skipped
+			cancel()
+			process()
+			synctest.Wait()
+			if !returned {
+				fail("did not return although its context was already cancelled")
+			} else if ret != nil {
+				fail("returned %v, want nil", ret)
+			}
+			if len(rec.ptrs) != 1 || rec.copies[0].Outcome != "succeeded" {
+				fail("%d events written for an accepted login processed under a cancelled context, want the one succeeded UserLogin (only the hand-off depends on the context)", len(rec.ptrs))
+			}
+			startReceiver()
+			synctest.Wait()
+			select {
+			case <-got:
+				fail("a login was forwarded after the call had returned")
+			default:
+			}
 		case "encoder-fails":
 			startReceiver()
 			synctest.Wait()
@@ -217,7 +238,7 @@ func runC05(t *testing.T, run *mc.Run) int {
 	if !run.Thorough() {
 		s.users, s.addrs, s.keytypes = s.users[:2], s.addrs[:2], s.keytypes[:2]
 	}
-	orders := []string{"receiver-first", "receiver-late", "never-cancel", "encoder-fails"}
+	orders := []string{"receiver-first", "receiver-late", "never-cancel", "cancelled-before", "encoder-fails"}
 	var sm sampler
 	n, withLogin := 0, 0
 	complete := true
@@ -271,7 +292,7 @@ func runC05(t *testing.T, run *mc.Run) int {
 		}
 		for _, pid := range pids {
 			for _, ord := range orders {
-				if !x.Login && (ord == "never-cancel") {
+				if !x.Login && (ord == "never-cancel" || ord == "cancelled-before") {
 					continue
 				}
 				n++
@@ -287,7 +308,7 @@ func runC05(t *testing.T, run *mc.Run) int {
 		}
 	})
 	cov := mc.Coverage{Level: "model_checking", States: len(sm.forms), Transitions: n, Traces: n, Evaluations: n, Distinct: withLogin, Exhaustive: complete, Samples: sm.samples,
-		Rule:  "for every line of the (reduced) C06 product x pid tokens {1,25007,4194304,007}: every environment order {receiver ready before the line; receiver appears after the call blocked; no receiver, context cancelled; encoder fails} delivered to the real ProcessSshdLogEntry in a synctest bubble (quiescence = every goroutine durably blocked), unbuffered logins channel as in cmd/namedpipe.go. states = distinct (form, order) cells; distinct_nontrivial = executions of accepted-authentication lines",
+		Rule:  "for every line of the (reduced) C06 product x pid tokens {1,25007,4194304,007}: every environment order {receiver ready before the line; receiver appears after the call blocked; no receiver, context cancelled while blocked; context cancelled before the line; encoder fails} delivered to the real ProcessSshdLogEntry in a synctest bubble (quiescence = every goroutine durably blocked), unbuffered logins channel as in cmd/namedpipe.go. states = distinct (form, order) cells; distinct_nontrivial = executions of accepted-authentication lines",
 		Extra: map[string]any{"cells": sm.forms, "orders": orders}}
 	cov.Assumptions = []string{"testing/synctest durable-blocking semantics", "select with both cancellation and a ready receiver is left unjudged (the statement says 'unless its context is cancelled')"}
 	return run.Finish(cov)
